@@ -326,13 +326,17 @@ func (c *BufConn) SetMaxBuffered(n int) {
 	c.in.mu.Unlock()
 }
 
-func (c *BufConn) IsClosed() bool        { return c.closed.Load() }
-func (c *BufConn) CloseCalls() int       { return int(c.closeCount.Load()) }
-func (c *BufConn) BytesRead() int64      { return c.readBytes.Load() }
-func (c *BufConn) BytesWritten() int64   { return c.writeBytes.Load() }
-func (c *BufConn) LocalAddr() net.Addr   { return c.local }
-func (c *BufConn) RemoteAddr() net.Addr  { return c.remote }
-func (c *BufConn) SetRemote(a string)    { c.remote = addr(a) }
+func (c *BufConn) IsClosed() bool       { return c.closed.Load() }
+func (c *BufConn) CloseCalls() int      { return int(c.closeCount.Load()) }
+func (c *BufConn) BytesRead() int64     { return c.readBytes.Load() }
+func (c *BufConn) BytesWritten() int64  { return c.writeBytes.Load() }
+func (c *BufConn) LocalAddr() net.Addr  { return c.local }
+func (c *BufConn) RemoteAddr() net.Addr { return c.remote }
+func (c *BufConn) SetRemote(a string)   { c.remote = addr(a) }
+
+// SetRemoteAddr makes RemoteAddr return a itself (a *net.TCPAddr, *net.UDPAddr, ...): code that
+// type-switches on the peer address sees what a real socket would give it.
+func (c *BufConn) SetRemoteAddr(a net.Addr) { c.remote = a }
 func (c *BufConn) SetDeadline(t time.Time) error {
 	c.SetReadDeadline(t)
 	return nil
